@@ -121,6 +121,15 @@ def handle (op real : String) : Verdict := Id.run do
   let r := Parser.classify (lexOf stmt) (4 * stmt.length + 16)
   let m := if r.oof then "oof" else if r.idem then (if r.err then "1e" else "1") else (if r.err then "0e" else "0")
   if m != realIdem then return { kind := "diff", sig, key := "verdict", detail := s!"verdict {m}" }
+  -- the same for `UPDATE <table> SET c = <term> WHERE k = 1`
+  let realUpd := field "upd="
+  if realUpd.startsWith "1" && tm.nonIdem then
+    return { kind := "spec", sig, key := "C06:unsound-term", detail := s!"UPDATE … SET c = <a term holding a now() / uuid() call> was classified idempotent: {op} -> {real}" }
+  let stmt2 : List Tok := [k Gen.Lex.tkUpdate] ++ table ++ [idt { text := [83, 69, 84] }, idt { text := [99] }, k Gen.Lex.tkEqual] ++
+    tm.render [k Gen.Lex.tkWhere, idt { text := [107] }, k Gen.Lex.tkEqual, k Gen.Lex.tkInteger]
+  let r2 := Parser.classify (lexOf stmt2) (4 * stmt2.length + 16)
+  let m2 := if r2.oof then "oof" else if r2.idem then (if r2.err then "1e" else "1") else (if r2.err then "0e" else "0")
+  if m2 != realUpd then return { kind := "diff", sig, key := "verdict-update", detail := s!"verdict {m2}" }
   return { kind := "ok", sig }
 
 end CqlVerif.Drv.AstStream
